@@ -233,7 +233,7 @@ pub fn run_c08(tier: Tier) -> Report {
     let seed = crate::evidence::seed();
     let (maxw, maxh) = if tier.thorough() { (512, 64) } else { (160, 24) };
     rep.set_rule(&format!(
-        "all widths 1..={maxw} x heights 1..={maxh} x 8 content classes {:?} (+ extras 352x288, 1x1000, 1000x1); all row-equality and column-equality patterns of two luma patterns for shapes <= 6x6; all sequences of three calls over 24 small pictures on one thread (purity); \
+        "all widths 1..={maxw} x heights 1..={maxh} x 8 content classes {:?} (+ extras 352x288, 1x1000, 1000x1; every height / width up to 700 (thorough 3000) next to 2, 3 or 7; prime heights and widths up to 10^6 (thorough 4*10^6)); all row-equality and column-equality patterns of two luma patterns for shapes <= 6x6; all sequences of three calls over 24 small pictures on one thread (purity); \
          non-trivial = shape whose width is not a multiple of 4 or whose height is odd",
         CONTENT_NAMES
     ));
@@ -246,6 +246,19 @@ pub fn run_c08(tier: Tier) -> Report {
     shapes.extend([(352, 288), (1, 1000), (1000, 1), (2, 257), (257, 2), (5, 33)]);
     // very wide / very tall pictures (16-bit Sorenson sizes)
     shapes.extend([(1028, 2), (1030, 3), (2049, 2), (4100, 3), (3, 4100), (2, 65535), (65535, 2), (1023, 5), (1024, 4), (704, 576)]);
+    // dense windows of one dimension next to a tiny other one, and sizes in general position
+    // (primes, geometrically spaced up to 4*10^6): row/column index arithmetic that is only wrong
+    // for particular residues or beyond a particular magnitude
+    let win = if tier.thorough() { 3000 } else { 700 };
+    for v in 1..=win {
+        shapes.extend([(2, v), (7, v), (v, 2), (v, 3)]);
+    }
+    for p in [1009usize, 2003, 4099, 10007, 20011, 40009, 65537, 100003, 200003, 400009, 524287, 1000003, 2000003, 4000037] {
+        if p > 1_100_000 && !tier.thorough() {
+            continue;
+        }
+        shapes.extend([(2, p), (3, p), (p, 2), (p, 3)]);
+    }
     let nt = shapes.iter().filter(|(w, h)| w % 4 != 0 || h % 2 != 0).count() as u64;
     shapes.par_iter().for_each(|&(w, h)| {
         for kind in 0..8 {
